@@ -244,7 +244,7 @@ def check_logs(rig, inst, succ, phase, add, with_end=True, snapshot=None):
             add('C11:interact' if phase == 'interact' else clause, {'log': name, 'got': short(got), 'want': short(want)})
         if flushes != len(writes) or maxun > 1:
             add('C11:flush', {'log': name, 'writes': len(writes), 'flushes': flushes, 'max_unflushed_writes': maxun})
-        if len(writes) != succ['writes'][name] and got == want:
+        if len(writes) != succ['writes'][name] and got == want and name != 'read' and not succ['logRead']:
             add('drift:write-granularity', {'log': name, 'writes': len(writes), 'model': succ['writes'][name]})
 
 
@@ -278,7 +278,7 @@ def exec_step(rig, label, succ, tag, ctlname, tamper=None):
             ret = c.sendintr()
         elif name == 'ReadDelivered':
             it = succ['delivered'][0]
-            feeder = rig.child_output(inst.out_bytes(it))
+            feeder = rig.child_output(rig.out_prefix() + inst.out_bytes(it))
             end = inst.end(it)
             c.expect_exact(end if inst.T is str else end.encode(), timeout=30)
             before = c.before
@@ -291,7 +291,11 @@ def exec_step(rig, label, succ, tag, ctlname, tamper=None):
     except Exception as e:
         exc = e
     if feeder is not None:
+        if exc is not None:
+            rig.discard_input(feeder)
         feeder.join(30)
+        if feeder.is_alive():
+            raise Machinery('the thread playing the child\'s output is stuck')
     if tamper:
         tamper(succ)
     # what the peer received
@@ -338,7 +342,7 @@ def exec_interact(rig, steps, tag0, tamper=None):
     found = []
     mode = rig.mode
     obs = []
-    script = []
+    pre = {}
 
     def mk(i, label, succ):
         name, args = stategraph.parse_action(label)
@@ -351,13 +355,15 @@ def exec_interact(rig, steps, tag0, tamper=None):
                 if name == 'InteractCopyIn':
                     os.write(arg, inst.keys(succ['peerGot'][0]))
                 elif name == 'InteractCopyOut':
-                    os.write(rig.out_fd, inst.out_bytes(succ['userGot'][0], with_end=False))
+                    pre[i] = rig.out_prefix()
+                    os.write(rig.out_fd, pre[i] + inst.out_bytes(succ['userGot'][0], with_end=False))
                 elif name == 'ExitInteract':
                     os.write(arg, ESCAPE)
             else:
                 o = {'logs': {n: (list(l.writes), l.flushes, l.max_unflushed) for n, l in rig.logs.items()}}
                 if name == 'InteractCopyOut':
-                    o['user'] = arg.take_n(len(inst.out_bytes(succ['userGot'][0], with_end=False)), 10)
+                    o['user'] = arg.take_n(len(pre[i] + inst.out_bytes(succ['userGot'][0], with_end=False)), 10)
+                    o['pre'] = pre[i]
                     o['seg'] = rig.barrier()
                 else:
                     o['seg'] = rig.barrier()
@@ -378,7 +384,7 @@ def exec_interact(rig, steps, tag0, tamper=None):
         if o['seg'] != want_peer:
             add('C08:peer-bytes', {'got': short(o['seg']), 'want': short(want_peer), 'what': 'bytes the child received during interact()'})
         if name == 'InteractCopyOut':
-            want_user = inst.out_bytes(succ['userGot'][0], with_end=False)
+            want_user = o['pre'] + inst.out_bytes(succ['userGot'][0], with_end=False)
             if o['user'] != want_user:
                 add('other:interact-output', {'got': short(o['user']), 'want': short(want_user)})
         check_logs(rig, inst, succ, 'interact', add, with_end=False, snapshot=o['logs'])
@@ -434,7 +440,7 @@ def run_walk(job):
                 nfail += 1
                 for clause, detail in real:
                     out['fails'].append({'clause': clause, 'detail': detail, 'at': at})
-            out['drift'] += sum(1 for f in found if f[0].startswith('drift:'))
+            out["drift"] += sum(1 for f in found if f[0].startswith("drift:")); out.setdefault("driftlist", []).extend([f for f in found if f[0].startswith("drift:")][:1])
             out['other'] += [f for f in found if f[0].startswith('other:')][:1]
     except Machinery as e:
         out['machinery'] = 'Machinery: %s' % e
